@@ -3,6 +3,7 @@ import SdnsVerif.Spec.Zone
 import SdnsVerif.Model.Nsec
 import SdnsVerif.Model.Nsec3
 import SdnsVerif.Model.Admission
+import SdnsVerif.Model.ProofExpiry
 /-! Line protocol of C02: `z` (NSEC), `h` (NSEC3), `adm` (admission guard). -/
 namespace Driver.C02
 open SdnsVerif.Model.Util SdnsVerif.Spec.Zone SdnsVerif.Model.Nsec
@@ -93,6 +94,7 @@ structure State where
   zone : Zone := { apex := [], nodes := [] }
   set : List Nsec := []
   h : SdnsVerif.Model.Nsec3.HState := {}
+  exp : SdnsVerif.Model.ProofExpiry.State := {}
 
 def stepNsec (st : State) (w : List String) : State × String :=
   match w with
@@ -260,11 +262,76 @@ def stepAdm (st : State) (w : List String) : State × String :=
     | _, _, _, _, _, _, _, _, _ => (st, "bad-op")
   | _ => (st, "bad-op")
 
+/-! ### expiry ops -/
+open SdnsVerif.Model.ProofExpiry in
+def parseSigs (s : String) : Option (List Sig) :=
+  (s.splitOn "+").mapM fun p =>
+    match p.splitOn "/" with
+    | [a, b, c] => do
+      let a ← a.toNat?
+      let b ← b.toNat?
+      let c ← c.toInt?
+      some { ttl := a, orig := b, exp := c }
+    | _ => none
+
+open SdnsVerif.Model.ProofExpiry in
+def parseSet (s : String) : Option RRSet :=
+  match s.splitOn "|" with
+  | [o, n, ts, ttl, sigs] => do
+    let o ← parseName o
+    let n ← parseName n
+    let ts ← parseTypes ts
+    let ttl ← ttl.toNat?
+    let sigs ← parseSigs sigs
+    some { nsec := { owner := o, next := n, cls := 1, types := ts }, ttl := ttl, sigs := sigs }
+  | _ => none
+
+open SdnsVerif.Model.ProofExpiry in
+def stepExp (st : State) (w : List String) : State × String :=
+  match w with
+  | ["exp", "new", pm, cm] =>
+    match pm.toNat?, cm.toNat? with
+    | some pm, some cm => ({ st with exp := { proofMax := pm, cutMax := cm } }, "ok")
+    | _, _ => (st, "bad-op")
+  | ["exp", "adv", d] =>
+    match d.toNat? with
+    | some d =>
+      let e := { st.exp with now := st.exp.now + d }
+      ({ st with exp := e }, s!"t={e.now}")
+    | none => (st, "bad-op")
+  | ["exp", "put", zone, kind, subj, qt, soa, cut, sets] =>
+    match parseName zone, parseName subj, soa.splitOn ",", (sets.splitOn ";").mapM parseSet with
+    | some zone, some subj, [sttl, smin, ssigs], some sets =>
+      -- Cache.ServeDNS answers from the shared denial state when it can: the
+      -- question then never reaches the resolver and nothing new is admitted
+      if lookupCut st.exp subj then (st, "ok up=0") else
+      let hit := (lookupProof st.exp subj (qt.toNat?.getD 0)).isSome
+      let st := { st with exp := pruneOnLookup st.exp subj (qt.toNat?.getD 0) }
+      if hit then (st, "ok up=0") else
+      match sttl.toNat?, smin.toNat?, parseSigs ssigs, (if cut == "-" then some none else cut.toInt?.map some) with
+      | some sttl, some smin, some ssigs, some cut =>
+        let b : Bundle := { zone := zone, nx := kind == "nx", subject := subj, soaTtl := sttl, soaMin := smin,
+                            soaSigs := ssigs, cut := cut, sets := sets }
+        ({ st with exp := admitBundle st.exp b }, "ok up=1")
+      | _, _, _, _ => (st, "bad-op")
+    | _, _, _, _ => (st, "bad-op")
+  | ["exp", "ask", q, t] =>
+    match parseName q, t.toNat? with
+    | some q, some t =>
+      let pv := match lookupProof st.exp q t with
+        | some .nxdomain => "nx"
+        | some .nodata => "nodata"
+        | none => "miss"
+      ({ st with exp := pruneOnLookup st.exp q t }, s!"proof={pv} cut={if lookupCut st.exp q then "hit" else "miss"}")
+    | _, _ => (st, "bad-op")
+  | _ => (st, "bad-op")
+
 def step (st : State) (w : List String) : State × String :=
   match w with
   | "z" :: _ => stepNsec st w
   | "h" :: _ => stepNsec3 st w
   | "adm" :: _ => stepAdm st w
+  | "exp" :: _ => stepExp st w
   | _ => (st, "bad-op")
 
 end Driver.C02
